@@ -10,6 +10,7 @@ import (
 	"net/http"
 	"net/url"
 	"strings"
+	"sync"
 	"syscall"
 	"time"
 
@@ -264,9 +265,14 @@ func NewUpstream(addr string, opt Opt) (_ Upstream, err error) {
 				MaxResponseHeaderBytes: 4 * 1024,
 			}
 		} else {
+			// Note: http.Transport has no Close. It can only close its idle connections.
+			ct := newConnTracker()
+			addonCloser = ct
 			t1 := &http.Transport{
 				DialContext: func(ctx context.Context, network, addr string) (net.Conn, error) {
-					return dialer.DialContext(ctx, dialNetworkTcpOrUnix(dialAddr), dialAddr)
+					return ct.dial(func() (net.Conn, error) {
+						return dialer.DialContext(ctx, dialNetworkTcpOrUnix(dialAddr), dialAddr)
+					})
 				},
 				TLSClientConfig:     opt.TLSConfig,
 				TLSHandshakeTimeout: tlsHandshakeTimeout,
@@ -398,6 +404,59 @@ func (cs closers) Close() error {
 		c.Close()
 	}
 	return nil
+}
+
+// connTracker tracks the connections that were dialed through it. Closing
+// the tracker closes all of them, whether they are idle or not. Subsequent
+// dials fail.
+type connTracker struct {
+	m      sync.Mutex
+	closed bool
+	conns  map[*trackedConn]struct{}
+}
+
+type trackedConn struct {
+	net.Conn
+	t *connTracker
+}
+
+func newConnTracker() *connTracker {
+	return &connTracker{conns: make(map[*trackedConn]struct{})}
+}
+
+func (t *connTracker) dial(dial func() (net.Conn, error)) (net.Conn, error) {
+	c, err := dial()
+	if err != nil {
+		return nil, err
+	}
+	t.m.Lock()
+	defer t.m.Unlock()
+	if t.closed {
+		c.Close()
+		return nil, transport.ErrClosedTransport
+	}
+	tc := &trackedConn{Conn: c, t: t}
+	t.conns[tc] = struct{}{}
+	return tc, nil
+}
+
+// Close always returns a nil error.
+func (t *connTracker) Close() error {
+	t.m.Lock()
+	defer t.m.Unlock()
+	t.closed = true
+	for c := range t.conns {
+		c.Conn.Close()
+	}
+	t.conns = nil
+	return nil
+}
+
+func (c *trackedConn) Close() error {
+	c.t.m.Lock()
+	delete(c.t.conns, c)
+	c.t.m.Unlock()
+	return c.Conn.Close()
 }
 
 func newDefaultClientQuicConfig() *quic.Config {
